@@ -161,9 +161,16 @@ func c20CLI(c *Cfg, r *Rng) {
 			continue
 		}
 		libChangedEval := false
+		// the class under which a non-idempotent second `cue trim` is reported: when the
+		// library route (trim.Files twice) is not idempotent on this package either, it is
+		// the same failure seen through the command, attributed like the library sweeps do
+		notIdemClass := "cli-not-idempotent"
 		for _, f := range w.fails {
 			if f.class == "eval-changed" || f.class == "trimmed-unloadable" {
 				libChangedEval = true
+			}
+			if f.class == "not-idempotent" {
+				notIdemClass = "not-idempotent" + c20TagWhat(f, p)
 			}
 		}
 		done++
@@ -239,7 +246,7 @@ func c20CLI(c *Cfg, r *Rng) {
 		// (d) second run is a no-op
 		out2, code2 := c20RunCLI(dir, args...)
 		q2, _ := c20ReadBack(dir, p)
-		c.Direct(code2 == 0 && q2.equal(q), "cli-not-idempotent", fmt.Sprintf("a second cue trim changes the files again or fails (exit %d): %s %s", code2, c20TextDiff(q, q2), c20clip(out2, 200)), replay)
+		c.Direct(code2 == 0 && q2.equal(q), notIdemClass, fmt.Sprintf("a second cue trim changes the files again or fails (exit %d): %s %s", code2, c20TextDiff(q, q2), c20clip(out2, 200)), replay)
 		c.Count("cli/completed")
 		if !q.equal(p) {
 			c.Count("cli/completed-with-changes")
